@@ -1,4 +1,5 @@
 import PynProofs.FixIset
+import PynProofs.Cover
 import PynModel.Core.ISet
 /-!
 # C01 — every IntervalSet is canonical and covers the union of its inputs
@@ -10,6 +11,11 @@ Model: `Pyn.ISet.mk` = independent sort of starts and ends, then `Pyn.jitfixIset
 (index-level transliteration of `_jitfix_iset` as repaired by `fix:` 3e52e6d).  Every
 IntervalSet-returning operation of pynapple re-enters the constructor, so canonicity of every
 reachable IntervalSet is canonicity of `ISet.mk`'s output on arbitrary input.
+
+Coverage clause (`mk_sound`, `mk_complete`): the constructor sorts starts and ends INDEPENDENTLY, so the pairs
+it scans are not the pairs it was given; that the union is nevertheless preserved is a counting argument
+(`PynProofs/Cover.lean`: an instant is covered iff more starts lie at or before it than ends strictly before it,
+and both counts are invariant under sorting), joined to the loop invariant of `_jitfix_iset` (`fixLoop_cover`).
 -/
 namespace Pyn.C01
 open Pyn
@@ -94,6 +100,100 @@ theorem mk_starts_increase (st en : Array Int) (h : st.size = en.size) :
   intro a b ha _ hab
   have := hc.1 a (by simpa using ha)
   omega
+
+/-! ### coverage -/
+
+theorem sortArr_toList (a : Array Int) : (sortArr a).toList = isort a.toList := by simp [sortArr]
+
+theorem sortArr_get_mem (a : Array Int) (k : Nat) (hk : k < (sortArr a).size) :
+    ∃ i, ∃ hi : i < a.size, (sortArr a)[k] = a[i] := by
+  have hm : (sortArr a)[k] ∈ isort a.toList := by
+    rw [← sortArr_toList]; exact Array.getElem_mem_toList ..
+  have := (isort_perm a.toList).mem_iff.1 hm
+  obtain ⟨i, hi, e⟩ := List.mem_iff_getElem.1 this
+  exact ⟨i, by simpa using hi, by simpa using e.symm⟩
+
+/-- positional pairs of the sorted arrays cover exactly what the original pairs cover -/
+theorem pos_of_cov (st en : Array Int) (h : st.size = en.size)
+    (hle : ∀ i, (hi : i < st.size) → st[i] ≤ en[i]'(h ▸ hi)) (x : Int)
+    (hc : ∃ i, ∃ hi : i < st.size, st[i] ≤ x ∧ x ≤ en[i]'(h ▸ hi)) :
+    InPos (sortArr st) (sortArr en) (by rw [sortArr_size, sortArr_size, h]) x := by
+  have hcnt := cov_to_count st en h hle x hc
+  rw [← cntLe_isort, ← cntLt_isort] at hcnt
+  have hlen : cntLe (isort st.toList) x ≤ (isort st.toList).length := List.countP_le_length
+  have hk : cntLt (isort en.toList) x < (sortArr st).size := by
+    rw [sortArr_size]; rw [length_isort] at hlen; simp at hlen; omega
+  refine ⟨cntLt (isort en.toList) x, hk, ?_, ?_⟩
+  · have := (sorted_le_iff (isort st.toList) (pairwise_isort _) x _ (by simpa [sortArr] using hk)).2 hcnt
+    simpa [sortArr] using this
+  · have hk2 : cntLt (isort en.toList) x < (isort en.toList).length := by
+      rw [length_isort]; rw [sortArr_size] at hk; simp; omega
+    have := mt (sorted_lt_iff (isort en.toList) (pairwise_isort _) x _ hk2).1 (Nat.lt_irrefl _)
+    have e : (sortArr en)[cntLt (isort en.toList) x]'(by simpa [sortArr] using hk2) =
+        (isort en.toList)[cntLt (isort en.toList) x] := by simp [sortArr]
+    rw [e]; omega
+
+theorem cov_of_pos (st en : Array Int) (h : st.size = en.size) (x : Int)
+    (hp : InPos (sortArr st) (sortArr en) (by rw [sortArr_size, sortArr_size, h]) x) :
+    ∃ i, ∃ hi : i < st.size, st[i] ≤ x ∧ x ≤ en[i]'(h ▸ hi) := by
+  obtain ⟨k, hk, a, b⟩ := hp
+  apply count_to_cov st en h x
+  rw [← cntLe_isort, ← cntLt_isort]
+  have hk1 : k < (isort st.toList).length := by simpa [sortArr] using hk
+  have hk2 : k < (isort en.toList).length := by
+    rw [length_isort]; rw [sortArr_size] at hk; simp; omega
+  have a' : (isort st.toList)[k] ≤ x := by simpa [sortArr] using a
+  have b' : ¬ (isort en.toList)[k] < x := by
+    have : x ≤ (isort en.toList)[k] := by simpa [sortArr] using b
+    omega
+  have c1 := (sorted_le_iff _ (pairwise_isort _) x k hk1).1 a'
+  have c2 := mt (sorted_lt_iff _ (pairwise_isort _) x k hk2).2 b'
+  omega
+
+/-- **C01 coverage, soundness** (any input): every instant of an interval of the constructed set lies in one of
+the input pairs — although starts and ends are sorted independently of each other -/
+theorem mk_sound (st en : Array Int) (h : st.size = en.size) (x : Int) (hx : InOut (ISet.mk st en h) x) :
+    ∃ i, ∃ hi : i < st.size, st[i] ≤ x ∧ x ≤ en[i]'(h ▸ hi) := by
+  apply cov_of_pos st en h x
+  unfold ISet.mk jitfixIset at hx
+  exact (fixLoop_cover (sortArr st) (sortArr en) _ (sortArr_sorted st) (sortArr_sorted en) _ 0 #[] (Nat.le_refl _)
+    (fun x ⟨p, hp, _⟩ => by simp at hp) (fun k hk => by omega)).1 x hx
+
+/-- **C01 coverage, completeness**: when every input pair has `start ≤ end`, an instant of an input pair that is
+not an endpoint of any pair and does not lie in the microsecond before a start (the sliver the touch separation
+removes) lies in an interval of the constructed set.  Zero-length inputs contain no such instant: they vanish. -/
+theorem mk_complete (st en : Array Int) (h : st.size = en.size)
+    (hle : ∀ i, (hi : i < st.size) → st[i] ≤ en[i]'(h ▸ hi)) (x : Int)
+    (hc : ∃ i, ∃ hi : i < st.size, st[i] ≤ x ∧ x ≤ en[i]'(h ▸ hi))
+    (hne : ∀ i, (hi : i < st.size) → x ≠ st[i] ∧ x ≠ en[i]'(h ▸ hi))
+    (hfar : ∀ i, (hi : i < st.size) → ¬ (st[i] - 1000 ≤ x ∧ x < st[i])) :
+    InOut (ISet.mk st en h) x := by
+  obtain ⟨k, hk, a, b⟩ := pos_of_cov st en h hle x hc
+  have hk2 : k < (sortArr en).size := by rw [sortArr_size] at hk ⊢; omega
+  obtain ⟨i1, hi1, e1⟩ := sortArr_get_mem st k hk
+  obtain ⟨i2, hi2, e2⟩ := sortArr_get_mem en k hk2
+  have n1 := (hne i1 hi1).1
+  have n2 := (hne i2 (by omega)).2
+  have hF : FarS (sortArr st) x := by
+    intro j hj
+    obtain ⟨i, hi, e⟩ := sortArr_get_mem st j hj
+    rw [e]; exact hfar i hi
+  unfold ISet.mk jitfixIset
+  exact (fixLoop_cover (sortArr st) (sortArr en) _ (sortArr_sorted st) (sortArr_sorted en) _ 0 #[] (Nat.le_refl _)
+    (fun x ⟨p, hp, _⟩ => by simp at hp) (fun k hk => by omega)).2 k hk x (by omega) (by omega) hF
+
+
+-- the hypotheses of `mk_complete` are satisfiable: unsorted, nested, touching pairs and an interior instant
+example : InOut (ISet.mk #[5000000, 0, 2000000, 9000000] #[9000000, 3000000, 2500000, 9500000] rfl) 2700000 :=
+  mk_complete #[5000000, 0, 2000000, 9000000] #[9000000, 3000000, 2500000, 9500000] rfl (by decide) 2700000
+    ⟨1, by decide, by decide, by decide⟩ (by decide) (by decide)
+-- the sliver removed by the touch separation (the hypothesis `hfar` is necessary)
+example : ¬ InOut (ISet.mk #[0, 5000] #[5000, 9000] rfl) 4500 := by
+  rintro ⟨p, hp, h1, h2⟩
+  have : ISet.mk #[0, 5000] #[5000, 9000] rfl = #[(0, 4000), (5000, 9000)] := by decide +kernel
+  rw [this] at hp
+  simp at hp
+  rcases hp with rfl | rfl <;> simp at h1 h2 <;> omega
 
 /-! ### non-vacuity and the two inputs that used to break canonicity (now repaired) -/
 -- unsorted, nested, overlapping, touching, zero-length, inverted input
